@@ -67,7 +67,9 @@ func (g *G) canSend(ch *Chan) bool {
 	if ch == nil {
 		return false
 	}
-	return ch.closed || len(ch.buf) < ch.cap || len(g.ex.pendingReceivers(ch, g)) > 0
+	// a full buffered channel is not sendable even if a receiver is about to
+	// run: the receiver has to take an element out first
+	return ch.closed || len(ch.buf) < ch.cap || (len(ch.buf) == 0 && len(g.ex.pendingReceivers(ch, g)) > 0)
 }
 
 func canRecv(ch *Chan) bool {
